@@ -27,7 +27,7 @@ Not decided: histories; callbacks' payloads (reporting only).
 from __future__ import annotations
 
 import ast
-from typing import Dict, List, Optional, Tuple
+from typing import Dict, List, Tuple
 
 from engines import jobgraphfacts as jg
 from engines import pyfacts as pf
@@ -98,7 +98,6 @@ def r123(ctx: Ctx, prog: sf.SqlProgram) -> None:
             return {key: (f'`{text(mm.st)[:100]}`: {mm.what}', f_, l_)}, False, True
         E = ex.E
         trans, pre, post = jg.own_transition(ex)
-        TS = jg.Sym('new_timestamp')
 
         def unchanged_groups(tag: str) -> bool:
             g = ex.rows[('job_groups', tag)]
